@@ -4,9 +4,9 @@ CONSTANTS
   Addrs = {"a1", "a2", "a3"}
   Filt = {}
   DefectByAddr = FALSE
-  MaxLen = 3
-  WithBad = FALSE
-  WithDup = TRUE
-  MaxLevel = 5
+  MaxLen = 2
+  WithBad = TRUE
+  WithDup = FALSE
+  MaxLevel = 4
 INVARIANTS TypeOK PropertyHolds
 CONSTRAINT Bounded
